@@ -281,7 +281,9 @@ func c20Sequential(ctx context.Context, run *common.Run, obs *c20obs, idx int) {
 	m := pbState{}
 	times := map[string][2]int64{} // addr -> [call sec, return sec] of the last stamp
 	var trace []string
-	w := func() map[string]interface{} { return map[string]interface{}{"kind": "peer-book-sequence", "ops": trace} }
+	w := func() map[string]interface{} {
+		return map[string]interface{}{"kind": "peer-book-sequence", "ops": trace}
+	}
 	pool := append([]string(nil), addrPool...)
 	for i := 0; i < 6; i++ {
 		b := make([]byte, rng.Intn(12))
